@@ -10,9 +10,9 @@ QUOTE = 'BacktestDataHandler.get_asset_latest_bid_ask_price'
 
 
 def check(ctx):
-    s1_s2_s3_execute(ctx)
-    s2_handler(ctx)
-    s4_fee_models(ctx)
+    ctx.sub(s1_s2_s3_execute)
+    ctx.sub(s2_handler)
+    ctx.sub(s4_fee_models)
 
 
 def s1_s2_s3_execute(ctx):
